@@ -83,6 +83,7 @@ func (g *Engine) Start() error {
 	// Start TCP/Unix listener pollers.
 	for _, l := range g.listeners {
 		g.Add(1)
+		g.wgListeners.Add(1)
 		go l.start()
 	}
 
